@@ -467,7 +467,7 @@ def monitor_proc(L, F):
 
 class Scenario:
     def __init__(self, ctx, bins, slot, name, cuts, rst=False, pre=200, during=150, post=100, extra=None, seed=1, unlock=30,
-                 data=20, big=0, throttle=0, sleep_us=20000, delay_started=0, restart_leader=False, during_delay=0.0):
+                 data=20, big=0, throttle=0, sleep_us=20000, delay_started=0, restart_leader=False, during_delay=0.0, tail_restart=False):
         self.__dict__.update(locals())
         self.base = 15900 + 10 * slot
         self.dir = "/tmp/c09-%d-%s" % (os.getpid(), name)
@@ -483,7 +483,93 @@ class Scenario:
                            stdout=subprocess.PIPE, stderr=subprocess.STDOUT, timeout=120)
         self.log.append(p.stdout.decode().strip())
 
+    def up(self, port):
+        for _ in range(100):
+            try:
+                socket.create_connection(("127.0.0.1", port), timeout=0.2).close()
+                return True
+            except OSError:
+                time.sleep(0.1)
+        return False
+
+    def run_tail_restart(self):
+        """the leader stops while its newest append file holds exactly ONE record and the follower has everything but
+        that record; the leader is restarted (empty ring: the resume decision falls back to the tail read from the
+        files), the follower reconnects and resumes by id: it must end up with the record (resume or full resync)"""
+        d = self.dir
+        shutil.rmtree(d, ignore_errors=True)
+        os.makedirs(d + "/leader")
+        os.makedirs(d + "/follower")
+        procs = {}
+        t_start = time.time()
+        try:
+            common = ["--bind", "127.0.0.1", "--db_fast_key_count", "1024", "--db_concurrent", "2", "--aof_file_rewrite_size", "524"]
+            lcmd = [self.bins["slock"], "--port", str(self.base), "--data_dir", d + "/leader", "--log", d + "/leader.log"] + common
+            pcmd = [self.bins["faultproxy"], "-listen", "127.0.0.1:%d" % (self.base + 1), "-target", "127.0.0.1:%d" % self.base, "-cuts", "-1"]
+            procs["leader"] = self.start(lcmd, d + "/leader.out")
+            self.up(self.base)
+            procs["proxy"] = self.start(pcmd, d + "/proxy.out")
+            time.sleep(0.2)
+            procs["follower"] = self.start([self.bins["slock"], "--port", str(self.base + 2), "--data_dir", d + "/follower", "--log", d + "/follower.log",
+                                            "--slaveof", "127.0.0.1:%d" % (self.base + 1)] + common, d + "/follower.out")
+            self.up(self.base + 2)
+            time.sleep(1.0)
+
+            def agree(n, secs):
+                t0 = time.time()
+                L = F = None
+                while time.time() - t0 < secs:
+                    L, F = parse_dir(d + "/leader"), parse_dir(d + "/follower")
+                    if L == F and len(L) >= n:
+                        break
+                    time.sleep(0.3)
+                return L, F
+            self.workload(self.pre, self.seed, 0)                      # fills the first append file
+            L, F = agree(self.pre, 12)
+            synced = L == F and len(L) == self.pre
+            procs.pop("proxy").kill()                                  # the follower is cut off ...
+            time.sleep(0.3)
+            self.workload(1, self.seed + 1, 100000)                    # ... exactly before this record
+            time.sleep(0.6)
+            idx = sorted(int(f.split(".")[-1]) for f in os.listdir(d + "/leader") if f.startswith("append.aof.") and not f.endswith(".dat"))
+            newest = os.path.getsize(d + "/leader/append.aof.%d" % idx[-1]) if idx else -1
+            procs["leader"].terminate()
+            try:
+                procs["leader"].wait(timeout=10)
+            except Exception:
+                procs["leader"].kill()
+            procs["leader"] = self.start(lcmd, d + "/leader.out")
+            self.up(self.base)
+            procs["proxy"] = self.start(pcmd, d + "/proxy2.out")
+            L, F = agree(self.pre + 1, 20)                             # the follower retries every 5 s
+            self.workload(1, self.seed + 2, 200000)
+            L, F = agree(self.pre + 2, 12)
+            m = monitor_proc(L, F)
+            flog = open(d + "/follower.log").read() if os.path.exists(d + "/follower.log") else ""
+            self.result = {"name": self.name, "cuts": "proxy stopped before the last record", "rst": False, "leader_records": len(L), "follower_records": len(F),
+                           "equal": m is None, "monitor": m[:2] if m else None, "cause": "restarted-leader-one-record-tail" if m else "other",
+                           "newest_leader_file_bytes_at_stop": newest, "boundary_hit": newest == 76, "in_sync_before_the_cut": synced,
+                           "workload": self.log, "wall_s": round(time.time() - t_start, 1),
+                           "follower_log": [l for l in flog.splitlines() if "Replication client" in l][-14:] if m else []}
+        except Exception as e:
+            self.result = {"name": self.name, "cuts": "", "error": repr(e), "equal": False, "monitor": ("infrastructure", repr(e)), "cause": "infrastructure"}
+        finally:
+            for p_ in procs.values():
+                try:
+                    p_.kill()
+                except Exception:
+                    pass
+            for p_ in procs.values():
+                try:
+                    p_.wait(timeout=5)
+                except Exception:
+                    pass
+            shutil.rmtree(d, ignore_errors=True)
+        return self.result
+
     def run(self):
+        if getattr(self, "tail_restart", False):
+            return self.run_tail_restart()
         d = self.dir
         shutil.rmtree(d, ignore_errors=True)
         os.makedirs(d + "/leader")
@@ -615,6 +701,8 @@ def proc_part(ctx, bins, thorough, cov, flags):
         # boundary is in the third file, the older files hold larger offsets
         # restarted leader, nothing logged since (empty ring): the full transfer must include the last record of the log
         dict(name="restarted-leader-empty-ring-full-transfer", cuts="-1", pre=40, during=20, post=10, unlock=0, data=0, restart_leader=True, during_delay=2.0),
+        # restarted leader whose newest append file holds exactly one record, follower one record behind (8 records per file)
+        dict(name="restarted-leader-one-record-tail", cuts="-1", pre=8, unlock=0, data=0, tail_restart=True),
         dict(name="rotated-log-full-transfer", cuts="-1", pre=300, during=60, post=40, unlock=0, extra=["--aof_file_rewrite_size", "8192"]),
     ]
     if thorough:
@@ -664,6 +752,9 @@ def proc_part(ctx, bins, thorough, cov, flags):
     summary = []
     for i, sc, res in results:
         row = {k: res.get(k) for k in ("name", "cuts", "rst", "leader_records", "follower_records", "equal", "cause", "wall_s")}
+        for k in ("newest_leader_file_bytes_at_stop", "boundary_hit", "in_sync_before_the_cut"):
+            if k in res:
+                row[k] = res[k]
         row["options"] = " ".join(sc.get("extra") or []) + (" throttle=%d" % sc["throttle"] if sc.get("throttle") else "") + \
             (" delay_started=%d" % sc["delay_started"] if sc.get("delay_started") else "")
         summary.append(row)
@@ -678,9 +769,31 @@ def proc_part(ctx, bins, thorough, cov, flags):
                           {"scenario": sc, "result": res,
                            "how": "leader + follower (--slaveof through build/c09-faultproxy -cuts <cuts>%s); compare data_dir/append.aof.* "
                                   "record by record after quiescence" % (" -rst" if sc.get("rst") else "")}, found_input=True)
+    # resynchronisation from scratch judged on the LOCK TABLES (harness/repl/cmd/resyncscratch, free ports): long-expiry holds
+    # taken in a burst, some released early (holes in the long expiry table), follower cut off past the ring's capacity, the
+    # leader releases the rest and compacts (REWRITEAOF), the follower reconnects, is told ERR_NOT_FOUND and resynchronises
+    # from scratch (FlushDB + full transfer): SHOW * / SHOW <key> on both nodes must agree (keys, lock ids, depths, values,
+    # deadlines within 2 s)
+    rs = None
+    for attempt in range(2):
+        try:
+            pr = subprocess.run([bins["resyncscratch"], bins["slock"]], stdout=subprocess.PIPE, stderr=subprocess.STDOUT, timeout=180)
+            rs = (pr.returncode, pr.stdout.decode("utf-8", "replace"))
+        except subprocess.TimeoutExpired as ex:
+            rs = (2, "timeout: " + (ex.stdout or b"").decode("utf-8", "replace")[-600:])
+        if rs[0] in (0, 1):
+            break
+    ctx.obligation("scenario resync-from-scratch-lock-tables ran to a verdict", rs[0] in (0, 1), "" if rs[0] in (0, 1) else rs[1][-500:])
+    summary.append({"name": "resync-from-scratch-lock-tables", "equal": rs[0] == 0, "cause": "other" if rs[0] == 0 else "follower-lock-table-differs",
+                    "verdict": [l for l in rs[1].splitlines() if l.startswith(("PASS", "FAIL", "phase"))][-6:]})
+    if rs[0] == 1:
+        ctx.violation("proc:follower-lock-table-differs:resync-from-scratch", "two-node scenario resync-from-scratch-lock-tables: after the resynchronisation from "
+                      "scratch the follower's lock table is not the leader's: " + " ".join(l.strip() for l in rs[1].splitlines() if l.strip().startswith("- "))[:500],
+                      {"scenario": "harness/repl/cmd/resyncscratch/main.go", "transcript": rs[1][-4000:],
+                       "how": "go build ./cmd/slock ./cmd/resyncscratch (harness/repl); resyncscratch <slock binary>"}, found_input=True)
     cov["proc_scenarios"] = summary
     cov["proc_time_s"] = round(time.time() - t0, 1)
-    return len(results)
+    return len(results) + 1
 
 
 # ------------------------------------------------------------------------------------------------ publication order (Handover.v)
@@ -1036,7 +1149,8 @@ def run(ctx):
     bins = {"slock": ctx.go_build("c09-slock", os.path.join(vlib.VERIF, "harness", "repl"), pkg="./cmd/slock", tags="",
                                   overlay={os.path.join(vlib.VERIF, "harness/repl/cmd/slock/main.go"): os.path.join(vlib.REPO, "main.go")}),
             "faultproxy": ctx.go_build("c09-faultproxy", os.path.join(vlib.VERIF, "harness", "repl"), pkg="./cmd/faultproxy", tags=""),
-            "workload": ctx.go_build("c09-workload", os.path.join(vlib.VERIF, "harness", "repl"), pkg="./cmd/workload", tags="")}
+            "workload": ctx.go_build("c09-workload", os.path.join(vlib.VERIF, "harness", "repl"), pkg="./cmd/workload", tags=""),
+            "resyncscratch": ctx.go_build("c09-resyncscratch", os.path.join(vlib.VERIF, "harness", "repl"), pkg="./cmd/resyncscratch", tags="")}
     nproc = proc_part(ctx, bins, thorough, cov, flags)
     neval += nproc
     ctx.trusted += [
